@@ -10,7 +10,7 @@ import re
 import subprocess
 import sys
 
-from .. import probes, refselector, selgen
+from .. import probes, refselector, respell_c07, selgen
 from ..core import VERIF_DIR, subseed
 from ..refselector import Undefined, Unsupported, classify_support
 
@@ -25,7 +25,10 @@ RULE = (
     "carries a may-reject construct: - // ** ^ << >>, unary - + ~, conditional expression, subscript, set/dict display, "
     "comprehension, f-string, lambda, tuple target, re-used loop variable, bare field-type constructor, non-whitelisted "
     "call).  Part 1 (kind sweep): for every must-support node kind / operator, expressions are drawn from the grammar "
-    "until one contains that kind (depth 0-2); part 2: random expressions of depth <= 3 (quick) / <= 6 (thorough).  Each "
+    "until one contains that kind (depth 0-2, thorough 0-3; 12 / 90 expressions per kind and shard); part 2: random "
+    "expressions of depth <= 3 (quick, 450 per shard) / <= 7 (thorough, 55 000 per shard).  Thorough also uses 12 record "
+    "pools instead of 2, 19 PYTHONHASHSEED values x 6 pools of child interpreters, and one cold child interpreter per "
+    "(whitelisted constructor, engine).  Each "
     "expression is run on 2 records of a 17-18 record pool (every field type, None values, empty lists, nested records, "
     "heterogeneous shapes, one grouped record).  Part 1c: field_equals / field_contains / field_regex on every field of "
     "the 33-field main shape (all field types) with candidate strings equal to the text form of the field's value, a "
@@ -49,7 +52,12 @@ RULE = (
     "mappings, with patterns using . ^ $ \\s \\b \\Z inline flags and (?i) over non-ASCII.  Part 1l: plain and grouped records "
     "declaring a field whose NAME collides with something the engines / helpers use (records, name, fields, values, "
     "Type, r, str, any, lower, names, has_field, ...) as string / varint / string[] / record / record[] field, through "
-    "every helper, attribute access and typed matcher.  Part 1j: every whitelisted constructor / namespace in a cold child interpreter (only flow.record.selector and "
+    "every helper, attribute access and typed matcher.  Part 1m: any / all generators whose loop variable is named like a field-type root or path component, a helper, r / "
+    "Type / net or a builtin, over text / integer / record lists (==, !=, in, helper call, attribute, if clause, two "
+    "clauses, nested): names bound in the selector namespace are may-reject, for all others Python's scoping must hold.  "
+    "Part 1n: selector texts whose string literals hold raw whitespace runs (blanks, tab, line feed in a "
+    "triple-quoted literal) through Selector, CompiledSelector, make_selector(.., force_compiled) and selectors rebuilt "
+    "from str() / repr() of another selector object: all verdicts == the reference.  Part 1j: every whitelisted constructor / namespace in a cold child interpreter (only flow.record.selector and "
     "RecordDescriptor imported, plain fields), compiled before interpreted and the other way round: outcome == the warm "
     "in-process outcome, and == the reference for net.*.  A case is non-trivial when the reference evaluator defines it (every "
     "sub-expression evaluated eagerly without error) and it reads at least one field; distinct = distinct (expression, "
@@ -70,7 +78,7 @@ ASSUMPTIONS = [
     "grouped records whose members declare a field named like GroupedRecord's own instance attributes (name, records, descriptors, flat_fields, fieldname_to_record) are not generated: the group object itself hides such a field (record composition, not the selector)",
 ]
 SHARDS = {"quick": 8, "thorough": 16}
-BUDGET_S = {"quick": 150, "thorough": 900}
+BUDGET_S = {"quick": 150, "thorough": 2400}
 
 ANCHORS = [
     "flow.record.selector:RecordContextMatcher._eval",
@@ -340,16 +348,17 @@ def pick_records(rng):
 
 
 def generate(ctx):
-    npools = ctx.scale(2, 6)
+    npools = ctx.scale(2, 12)
     pool_seeds = [subseed("c07", ctx.seed, "pool", i) for i in range(npools)]
     # part 1: kind sweep
-    reps = ctx.scale(12, 40)
+    reps = ctx.scale(12, 90)
     for kind in REQUIRED_KINDS:
         rng = random.Random(subseed("c07", ctx.seed, ctx.shard, "sweep", kind))
         for j in range(reps):
             expr = None
             for _ in range(400):
-                e, tags = selgen.gen_expr(rng, rng.choice([0, 1, 1, 2]), C07_INFO, support="must", avoid=(), with_tags=True)
+                e, tags = selgen.gen_expr(rng, rng.choice([0, 1, 1, 2] if ctx.quick else [0, 1, 2, 2, 3]), C07_INFO, support="must", avoid=(),
+                                          with_tags=True)
                 if kind in node_kinds(ast.parse(e, mode="eval")):
                     expr = e
                     break
@@ -360,13 +369,14 @@ def generate(ctx):
             for ri in recs:
                 yield {"k": "sweep", "kind": kind, "expr": expr, "tags": tags, "pool": pool_seeds[j % npools], "rec": ri}
     # part 1b: may-reject sweep
-    reps = ctx.scale(6, 20)
+    reps = ctx.scale(6, 45)
     for reason in MAY_REASONS:
         rng = random.Random(subseed("c07", ctx.seed, ctx.shard, "may-sweep", reason))
         for j in range(reps):
             expr = None
             for _ in range(600):
-                e, tags = selgen.gen_expr(rng, rng.choice([0, 1, 1, 2]), C07_INFO, support="any", avoid=(), with_tags=True)
+                e, tags = selgen.gen_expr(rng, rng.choice([0, 1, 1, 2] if ctx.quick else [0, 1, 2, 2, 3]), C07_INFO, support="any", avoid=(),
+                                          with_tags=True)
                 if "may-reject" in tags and reason in classify_support(e)[1]:
                     expr = e
                     break
@@ -377,7 +387,7 @@ def generate(ctx):
                 yield {"k": "may-sweep", "kind": reason, "expr": expr, "tags": tags, "pool": pool_seeds[j % npools], "rec": ri}
     # part 1c: helper functions over fields of every type, with candidate strings equal to the text form of the value
     idx = 0
-    for ps in pool_seeds[:ctx.scale(2, 4)]:
+    for ps in pool_seeds[:ctx.scale(2, 10)]:
         pool = pool_for(ctx, ps)
         for ri in range(0, 10):
             for ftype, fname in selgen.MAIN_FIELDS:
@@ -386,7 +396,7 @@ def generate(ctx):
                         yield {"k": "helper-type", "kind": ftype, "expr": expr, "tags": [], "pool": ps, "rec": ri}
                     idx += 1
     # part 1d: typed matchers whose only matching value sits at nesting depth k = 0..4 (record / record[] chains)
-    for ps in pool_seeds[:ctx.scale(2, 4)]:
+    for ps in pool_seeds[:ctx.scale(2, 10)]:
         for ri, (rec, levels) in enumerate(deep_for(ctx, ps)):
             for k, vals in enumerate(levels):
                 for expr in deep_exprs(k, vals, len(levels) - 1):
@@ -394,7 +404,7 @@ def generate(ctx):
                         yield {"k": "deep", "kind": "depth%d" % k, "expr": expr, "tags": [], "pool": ps, "rec": ri}
                     idx += 1
     # part 1e: typed matchers on grouped records of different shapes, one after the other in this process
-    for ps in pool_seeds[:ctx.scale(2, 4)]:
+    for ps in pool_seeds[:ctx.scale(2, 10)]:
         groups = grouped_for(ctx, ps)
         for gi, g in enumerate(groups):
             others = [(gi + 1) % len(groups), (gi + 3) % len(groups), (gi + 7) % len(groups)]
@@ -405,7 +415,7 @@ def generate(ctx):
                             yield {"k": "grouped-seq", "kind": "grouped", "expr": expr, "tags": [], "pool": ps, "recs": recs}
                         idx += 1
     # part 1f: multi-clause generators whose 2nd / 3rd iterable is a generator expression, decided at outer index >= 1
-    for ps in pool_seeds[:ctx.scale(2, 4)]:
+    for ps in pool_seeds[:ctx.scale(2, 10)]:
         pool = pool_for(ctx, ps)
         for ri in range(0, 8):
             for expr in genexp_iterable_exprs(pool[ri]):
@@ -420,13 +430,13 @@ def generate(ctx):
                        "rec": idx % 6}
             idx += 1
     # part 1h: text that is not an expression on its own (but would be inside some wrapper) must be rejected
-    for text in reject_texts(ctx.seed):
+    for text in reject_texts(ctx.seed, ctx.scale(3, 10)):
         if ctx.mine(idx):
             yield {"k": "reject", "kind": "not-an-expression", "expr": text, "tags": [], "pool": pool_seeds[0], "rec": idx % 6}
         idx += 1
     # part 1i: helper field lists in child interpreters under several PYTHONHASHSEED values
-    for ps in pool_seeds[:ctx.scale(1, 3)]:
-        for h in HASH_SEEDS:
+    for ps in pool_seeds[:ctx.scale(1, 6)]:
+        for h in (HASH_SEEDS if ctx.quick else HASH_SEEDS_THOROUGH):
             if ctx.mine(idx):
                 yield {"k": "hashseed", "kind": "helper-field-order", "expr": "<batch of helper calls with multi-field lists>", "tags": [],
                        "pool": ps, "hashseed": h}
@@ -436,6 +446,28 @@ def generate(ctx):
         if ctx.mine(idx):
             yield {"k": "cold", "kind": "cold-process", "expr": "<batch of whitelisted constructors>", "tags": [], "order": order}
         idx += 1
+    if not ctx.quick:
+        # thorough: one cold child per expression and engine, so nothing evaluated earlier in the child can have warmed it
+        for ei in range(len(cold_exprs())):
+            for engine in ("compiled", "interpreted"):
+                if ctx.mine(idx):
+                    yield {"k": "cold", "kind": "cold-process", "expr": "<one whitelisted constructor>", "tags": [], "order": [engine], "only": ei}
+                idx += 1
+    # part 1n: the selector text with whitespace runs inside string literals, through every way a selector object is (re)built
+    for ri in range(len(respell_c07.RESPELL_VALUES)):
+        for expr in respell_c07.respell_exprs():
+            if ctx.mine(idx):
+                yield {"k": "respell", "kind": "whitespace-in-literal", "expr": expr, "tags": [], "pool": "respell", "rec": ri}
+            idx += 1
+    # part 1m: generator loop variables NAMED like something else in the language (type roots, path components, helpers, builtins)
+    for ps in pool_seeds[:ctx.scale(1, 4)]:
+        pool = pool_for(ctx, ps)
+        for ri in range(0, ctx.scale(4, 8)):
+            for name in loop_variable_names():
+                for expr in loop_variable_exprs(pool[ri], name):
+                    if ctx.mine(idx):
+                        yield {"k": "loop-var", "kind": "loop-variable-name", "expr": expr, "tags": [], "pool": ps, "rec": ri}
+                    idx += 1
     # part 1k: helpers on values with line feeds / control characters / special case mappings (regex flags, nocase)
     for ri, rec in enumerate(ctl_records()):
         for expr in ctl_exprs(rec):
@@ -449,8 +481,8 @@ def generate(ctx):
                 yield {"k": "collision", "kind": "field-name-collision", "expr": expr, "tags": [], "pool": "collision", "rec": ri}
             idx += 1
     # part 2: random expressions, deeper
-    n = ctx.scale(450, 14000)
-    depths = [0, 1, 2, 2, 3, 3] if ctx.quick else [1, 2, 3, 3, 4, 4, 5, 6]
+    n = ctx.scale(450, 55000)
+    depths = [0, 1, 2, 2, 3, 3] if ctx.quick else [1, 2, 3, 3, 4, 4, 5, 5, 6, 7]
     rng = random.Random(subseed("c07", ctx.seed, ctx.shard, "random"))
     for i in range(n):
         support = "any" if i % 2 else "must"
@@ -529,6 +561,7 @@ def genexp_iterable_exprs(rec):
 
 
 HASH_SEEDS = ("0", "1", "2", "3", "5", "11")
+HASH_SEEDS_THOROUGH = tuple(str(i) for i in (0, 1, 2, 3, 4, 5, 6, 7, 8, 9, 11, 13, 17, 23, 42, 99, 1000, 65535, 4294967295))
 CTOR_ARGS = {
     "boolean": "True", "command": "'ls -l'", "dynamic": "1", "datetime": "'2020-01-01T00:00:00'", "filesize": "5", "uint16": "5", "uint32": "5",
     "float": "1.5", "string": "'x'", "stringlist": "['a']", "dictlist": "[]", "unix_file_mode": "420", "varint": "5", "wstring": "'x'",
@@ -648,6 +681,8 @@ def exec_cold(ctx, case):
     from flow.record.selector import CompiledSelector, Selector
 
     exprs = cold_exprs()
+    if case.get("only") is not None:
+        exprs = [exprs[case["only"]]]
     res = run_child(ctx, {"mode": "cold", "order": case["order"], "exprs": exprs})
     if res is None:
         return
@@ -675,7 +710,7 @@ def exec_cold(ctx, case):
     ctx.sample({"cold expressions": len(exprs), "order": case["order"]}, kind="cold")
 
 
-def reject_texts(seed):
+def reject_texts(seed, rounds=3):
     """Texts that builtin ast.parse(text, mode='eval') rejects but that become expressions inside a simple wrapper:
     parenthesised, in a list / call, with parentheses prefixed / suffixed, joined by newlines."""
     rng = random.Random(subseed("c07", seed, "reject"))
@@ -686,7 +721,7 @@ def reject_texts(seed):
              "**r", "yield", "yield r.n", "r.n == 1 if", "r.n ==", "== r.n", "r.n = 1", "r.n == 1;True", "r.n == 1 r.m == 2", "lambda:", "r.n == 1 else 2",
              "for x in r.nl: x", "import os", "r.n == 1 #\n) or (True", "x=1", "r, nocase=True", "1 if r.n", "r.n if", "not", "r.", ".n", "r.n == 1 and",
              "and r.n == 1", "r.n == 1)", "(r.n == 1", "[r.n == 1", "r.n == 1]", "r.n == 1))((", "  r.n == 1\n  and r.m == 2", "\tr.n == 1\nr.m == 2", ""]
-    for _ in range(3):
+    for _ in range(rounds):
         for a in base:
             b = rng.choice(base)
             texts += ["%s) or (%s" % (a, b), "%s) and (%s" % (a, b), "%s), (%s" % (a, b), "%s] + [%s" % (a, b), "%s\nand %s" % (a, b), "%s\nor\n%s" % (a, b),
@@ -823,6 +858,68 @@ def collision_exprs(rec, fname, ftype):
     return list(dict.fromkeys(out))
 
 
+def loop_variable_names():
+    """Loop variable names that also mean something else: every WHITELIST root and path component, the helper names,
+    r / Type / net, builtins the engines do or do not know.  Which of them an engine may refuse is classify_support's
+    business (names that are bound in the selector namespace are may-reject); for all others Python's scoping holds."""
+    import builtins
+
+    names = set()
+    for t in refselector._whitelist():
+        names.update(t.split("."))
+    names.update(refselector.HELPERS)
+    names.update(["r", "Type", "net", "str", "repr", "any", "all", "fields", "len", "int", "list", "id", "type", "max", "min", "set", "dict", "print",
+                  "object", "filter", "map", "sum", "bool", "float", "bytes", "tuple", "input", "open", "self", "rec", "x"])
+    return sorted(n for n in names if n.isidentifier() and n not in ("None", "True", "False") and (n in vars(builtins) or True))
+
+
+def loop_variable_exprs(rec, v):
+    out = []
+    l, nl, subs = rec.l, rec.nl, rec.subs
+    if l:
+        last, first = str(l[-1]), str(l[0])
+        out += ["any({v} == %r for {v} in r.l)" % last, "any({v} != %r for {v} in r.l)" % first, "all({v} != 'q-q' for {v} in r.l)",
+                "any({v} in [%r, 'zz'] for {v} in r.l)" % last, "any(lower({v}) == %r for {v} in r.l)" % last.lower(),
+                "any(True for {v} in r.l if {v} == %r)" % last, "any({v} == y_ for {v} in r.l for y_ in [%r])" % last,
+                "any(y_ == {v} for y_ in [%r] for {v} in r.l)" % last, "any(any({v} == y_ for y_ in r.l) for {v} in [%r])" % last,
+                "any({v} + '!' == %r for {v} in r.l)" % (last + "!"), "%r in [%r] and any({v} == %r for {v} in r.l)" % (last, last, last)]
+    if nl:
+        a = int(nl[-1])
+        out += ["any({v} == %d for {v} in r.nl)" % a, "any({v} + 1 > %d for {v} in r.nl)" % a, "all({v} * 2 != %d for {v} in r.nl)" % (2 * a + 1)]
+    if subs:
+        ss = subs[-1].ss
+        out += ["any({v}.ss == %r for {v} in r.subs)" % ss, "all({v}.sn != -7 for {v} in r.subs)", "any({v}.sip != None for {v} in r.subs)"]
+    if v == "r":
+        # `for r in r.l` in a later clause reads the generator's own (still unbound) local in Python: not an expression
+        # with a defined value
+        out = [e for e in out if " for y_ in [" not in e.split(" for {v} in r.l")[0] or not e.endswith("for {v} in r.l)")]
+    return [e.replace("{v}", v) for e in out]
+
+
+def exec_respell(ctx, case):
+    """The same text through every builder of respell_c07.forms(): each verdict == the reference."""
+    expr = case["expr"]
+    rec = respell_c07.respell_records()[case["rec"]]
+    try:
+        ref = ("V", ref_truth(ast.parse(expr, mode="eval"), rec))
+    except (Undefined, Unsupported, SyntaxError):
+        ctx.event("skipped:undefined")
+        return
+    ctx.ev()
+    ctx.event("defined:whitespace-in-literal")
+    ctx.nontrivial("respell", expr, case["rec"])
+    for name, build in respell_c07.forms(expr).items():
+        try:
+            got = ("V", bool(build().match(rec)))
+        except Exception as e:  # noqa: BLE001
+            got = ("E", type(e).__name__)
+        ctx.event("respell:" + ("agree" if got == ref else "VIOLATION"))
+        if got != ref:
+            ctx.violation(None, "a selector object rebuilt from the text of another one does not give the reference verdict",
+                          detail={"text": expr, "form": name, "reference": ref[1], "result": got[1], "record": repr(rec)})
+    ctx.sample({"text": expr, "reference": ref[1]}, kind="respell")
+
+
 def near_miss_names():
     """-> sorted list of (name, dotted).  Every proper string prefix of a whitelisted type path that does not end at a
     component boundary, plus one-character extensions of the complete paths - minus everything that IS in the language
@@ -911,7 +1008,7 @@ def exec_near_miss(ctx, case):
 def deep_for(ctx, seed):
     cache = ctx.state.setdefault("deep", {})
     if seed not in cache:
-        cache[seed] = selgen.deep_records(random.Random(seed ^ 0x5EED), 6 if ctx.quick else 12)
+        cache[seed] = selgen.deep_records(random.Random(seed ^ 0x5EED), 6 if ctx.quick else 16)
     return cache[seed]
 
 
@@ -989,6 +1086,8 @@ def execute(ctx, case):
         return exec_near_miss(ctx, case)
     if case["k"] == "reject":
         return exec_reject(ctx, case)
+    if case["k"] == "respell":
+        return exec_respell(ctx, case)
     if case["k"] == "hashseed":
         return exec_hashseed(ctx, case)
     if case["k"] == "cold":
@@ -1051,7 +1150,7 @@ def check_pair(ctx, case, expr, rec, long_lived):
             return
 
     kinds = node_kinds(tree)
-    if case["k"] in ("ctl", "collision"):
+    if case["k"] in ("ctl", "collision", "loop-var"):
         ctx.event("defined:" + case["kind"])
         ctx.cell(case["kind"], expr.split("(")[0][:24], ref)
     if case["k"] == "deep":
@@ -1104,6 +1203,8 @@ def finish(ctx):
         ctx.require(have >= need, "must-support kind %s has only %d defined cases in shard %d (need %d)" % (k, have, ctx.shard, need))
     ctx.require(ctx.events.get("oracle_selfcheck_agree", 0) > 0, "the oracle self-check against builtin eval never ran")
     ctx.require(ctx.events.get("defined:may-reject", 0) > 0, "no defined may-reject case")
+    ctx.require(ctx.events.get("defined:whitespace-in-literal", 0) > 0, "no defined whitespace-in-literal case in shard %d" % ctx.shard)
+    ctx.require(ctx.events.get("defined:loop-variable-name", 0) > 0, "no defined case with a loop variable named like a type / helper in shard %d" % ctx.shard)
     ctx.require(ctx.events.get("defined:control-characters", 0) > 0, "no defined helper case on control-character values in shard %d" % ctx.shard)
     ctx.require(ctx.events.get("defined:field-name-collision", 0) > 0, "no defined case on colliding field names in shard %d" % ctx.shard)
     ctx.require(ctx.events.get("reject texts", 0) > 0, "no non-expression text was tried in shard %d" % ctx.shard)
